@@ -57,6 +57,10 @@ def configs(tier):
     out += [dict(kind='date-pairs', part=i) for i in range(8)]
     out += [dict(kind='datetime-pairs', part=i) for i in range(4)]
     out += [dict(kind='multi', cls=c) for c in ('time', 'date', 'datetime')]
+    # every 251st (thorough: 37th) microsecond value in the notations with a fraction
+    stepus = 251 if tier == 'quick' else 37
+    for part in range(8):
+        out.append(dict(kind='time-micros', part=part, step=stepus))
     out += [dict(kind='malformed'), dict(kind='parse')]
     if tier == 'thorough':
         out += [dict(kind='date-membership', month=m) for m in range(1, 13)]
@@ -370,6 +374,25 @@ def run_time_endpoints(cfg, acc):
                 'notations': [repr(x) for x in time_notations(h, 59, 59, 500000)[:6]]}, limit=1)
 
 
+def run_time_micros(cfg, acc):
+    cls = ti.TimeInterval
+    dcls = ti.DateTimeInterval
+    other = [7, 7, 7, 7]
+    n = 0
+    for us in range(1 + cfg['part'] * cfg['step'], 1_000_000, 8 * cfg['step']):
+        n += 1
+        h, m, s = (9, 5, 7) if n % 2 else (23, 59, 59)
+        v = [h, m, s, us]
+        digits = f"{us:06d}"
+        for fr in sorted({digits, digits.rstrip('0')}):
+            for mark in '.,':
+                for body in (f"{h}:{m}:{s}", f"{h:02}:{m:02}:{s:02}", f"T{h:02}{m:02}{s:02}"):
+                    check_norm(cls, f"{body}{mark}{fr}/7:7:7.000007;", [[v, other]], acc, cfg, 'time')
+                check_norm(dcls, f"2020 Mar 1 {h}:{m}:{s}{mark}{fr} / 2030-01-01T00:00;",
+                           [[[2020, 3, 1] + v, [2030, 1, 1, 0, 0, 0, 0]]], acc, cfg, 'datetime')
+    acc.sample({'kind': 'time-micros', 'values': n}, limit=1)
+
+
 def run_date_endpoints(cfg, acc):
     mo = cfg['month']
     cls = ti.DateInterval
@@ -658,7 +681,7 @@ def run_config(cfg):
     if kind.endswith('-pairs'):
         run_pairs(cfg, acc)
     else:
-        {'time-endpoints': run_time_endpoints, 'date-endpoints': run_date_endpoints,
+        {'time-endpoints': run_time_endpoints, 'time-micros': run_time_micros, 'date-endpoints': run_date_endpoints,
          'datetime-endpoints': run_datetime_endpoints, 'multi': run_multi,
          'malformed': run_malformed, 'parse': run_parse,
          'date-membership': run_date_membership}[kind](cfg, acc)
